@@ -128,7 +128,7 @@ func (rn *runner) one(cfg walletlab.Config) []string {
 		r.Violation(f.Sig, f.What, cs, f.Detail)
 	}
 	if st.PorcupineUnknown {
-		r.Inconclusive(fmt.Sprintf("history %s/%d: porcupine did not finish within %v", cfg.Kind, cfg.Stream, porcupineTimeout))
+		r.Undecided(fmt.Sprintf("history %s/%d: porcupine did not finish within %v", cfg.Kind, cfg.Stream, porcupineTimeout))
 	}
 	if err != nil && len(sigs) == 0 {
 		r.Inconclusive(fmt.Sprintf("history %s/%d: harness could not drive the workload: %v", cfg.Kind, cfg.Stream, err))
